@@ -38,7 +38,12 @@
    outside, then exec(handle_message) or, when an element consumed the message,
    exec(|| {}); async_wakeup = timer wakes outside, then exec(|| {}) (same shape as a
    consumed message; timers are C05's); at_sim_end = exec(at_sim_end) + block_on(yield_now);
-   restart = fresh runtime + the at_sim_start stages.
+   restart = the at_sim_start stages on the runtime created at shutdown.
+   Shutdown: a callback that calls shutdown() / shutdow_and_restart_in(d) only sets a
+   request; its exec drives the runtime as usual (tasks it woke ARE polled); buf_process
+   consumes the request after the event: the runtime is dropped (all tasks cancelled), a
+   fresh one is created, exec(Module::reset) runs on it, the module is inactive (messages
+   are ignored, no hooks, no exec) until the restart event, if any.
 
    [mode]: [Some c] is tokio with cooperative budget c; [None] is the executor without
    cooperative budget in which a yield re-queues at once -- used, with unbounded poll
@@ -51,7 +56,8 @@ Open Scope N_scope.
 
 (* ---- task systems ---- *)
 Inductive op := Log | Recv | Send (t : nat) | Join (t : nat) | Yield | End.
-Inductive act := Spawn (t : nat) | ASend (t : nat).
+(* AShutdown None = current().shutdown(); AShutdown (Some d) = current().shutdow_and_restart_in(d) *)
+Inductive act := Spawn (t : nat) | ASend (t : nat) | AShutdown (r : option N).
 Inductive status := NotSpawned | Queued | BlockedRecv | BlockedJoin (t : nat) | Done.
 (* where the JoinHandle of a task is: nowhere (not spawned / consumed), in the module's
    table, or taken by task i (which is awaiting it or about to) *)
@@ -67,6 +73,7 @@ Record task := {
 
 Inductive trec :=
 | RStart (now : N)
+| RReset (now : N)
 | REvent (e : nat) (now : N)
 | RPoll (i : nat) (woken now : N)
 | ROp (i : nat) (now : N)
@@ -290,6 +297,7 @@ Definition do_act (now : N) (s : st) (a : act) : st :=
                | None => s
                end
   | ASend t => fst (send true now t s)
+  | AShutdown _ => s      (* only sets ModuleContext::shutdown_task; see [shutdown_req] *)
   end.
 Definition handler (now : N) (acts : list act) (s : st) : st := fold_left (do_act now) acts s.
 
@@ -319,7 +327,7 @@ Definition send_outside (now : N) (t : nat) (s : st) : st :=
       end
   end.
 Definition do_pre (now : N) (s : st) (a : act) : st :=
-  match a with ASend t => send_outside now t s | Spawn _ => s end.
+  match a with ASend t => send_outside now t s | Spawn _ => s | AShutdown _ => s end.
 Definition pre_hooks (now : N) (pre : list act) (s : st) : st := fold_left (do_pre now) pre s.
 
 (* one Harness::exec under tokio's budgets *)
@@ -376,18 +384,81 @@ Definition run_exec (b : budgets) (tag : N) (now : N) (acts : list act) (s : st)
    exec(|| {}) -- ModuleRef::handle_message, the `else` branch. *)
 Definition mevent : Type := N * bool * list act * list act.
 
-Definition run_event (b : budgets) (s : st) (e : nat) (now : N) (consumed : bool) (pre acts : list act) : st :=
-  run_exec b 4 now (if consumed then [] else acts) (pre_hooks now pre (add_trace (REvent e now) s)).
+Definition ev_acts (consumed : bool) (acts : list act) : list act := if consumed then [] else acts.
 
-Fixpoint run_events (b : budgets) (s : st) (e : nat) (now : N) (evs : list mevent) : st * N :=
-  match evs with
-  | [] => (s, now)
-  | (d, k, pre, acts) :: r => run_events b (run_event b s e (now + d) k pre acts) (S e) (now + d) r
+Definition run_event (b : budgets) (s : st) (e : nat) (now : N) (consumed : bool) (pre acts : list act) : st :=
+  run_exec b 4 now (ev_acts consumed acts) (pre_hooks now pre (add_trace (REvent e now) s)).
+
+(* at_sim_start (one stage) *)
+Definition run_start (b : budgets) (s : st) (now : N) (acts : list act) : st :=
+  run_exec b 4 now acts (add_trace (RStart now) s).
+
+Definition mk_task (loc : bool) (c : list op) : task :=
+  {| local := loc; code := Some c; stat := NotSpawned; inbox := 0; jh := JNone; wk := 0 |}.
+Definition init (g : N) (ts : list (bool * list op)) : st :=
+  {| tasks := map (fun x => mk_task (fst x) (snd x)) ts; lq := []; cq := []; inj := []; stick := 0; gqi := g; trace := [] |}.
+
+(* ---- shutdown / restart ---- *)
+(* the request left in ModuleContext::shutdown_task by a callback: the last call wins;
+   Some None = shut down for good, Some (Some r) = restart at r *)
+Definition shutdown_req (now : N) (acts : list act) : option (option N) :=
+  fold_left (fun q a => match a with
+                        | AShutdown None => Some None
+                        | AShutdown (Some d) => Some (Some (now + d))
+                        | _ => q
+                        end) acts None.
+
+(* buf_process consuming the request: runtime dropped, fresh runtime, exec(Module::reset) *)
+Definition do_shutdown (b : budgets) (g : N) (ts : list (bool * list op)) (now : N) (s : st) : st :=
+  let s0 := {| tasks := tasks (init g ts); lq := []; cq := []; inj := []; stick := 0; gqi := g;
+               trace := RReset now :: trace s |} in
+  let '(s1, _, p3) := exec_event (b_local b) (b_rt b) (b_coop b) now [] s0 in
+  end_turn (b_rt b) p3 s1.
+
+Inductive mode := Up | Down (restart : option N).
+
+Definition after_exec (b : budgets) (g : N) (ts : list (bool * list op)) (now : N) (acts : list act) (s : st) : st * mode :=
+  match shutdown_req now acts with
+  | Some r => (do_shutdown b g ts now s, Down r)
+  | None => (s, Up)
   end.
 
-(* at_sim_start (one stage) at time 0 *)
-Definition run_start (b : budgets) (s : st) (acts : list act) : st :=
-  run_exec b 4 0 acts (add_trace (RStart 0) s).
+(* the restart replays at_sim_start; the harness' module requests no shutdown there *)
+Definition no_shutdown (acts : list act) : list act :=
+  filter (fun a => match a with AShutdown _ => false | _ => true end) acts.
+
+(* the restart event is queued behind the messages already scheduled for its instant *)
+Definition restart_due (m : mode) (t : N) : option N :=
+  match m with Down (Some r) => if r <? t then Some r else None | _ => None end.
+
+Definition catch_up (b : budgets) (start : list act) (sm : st * mode) (t : N) : st * mode :=
+  match restart_due (snd sm) t with
+  | Some r => (run_start b (fst sm) r (no_shutdown start), Up)
+  | None => sm
+  end.
+
+Definition step_event (b : budgets) (g : N) (ts : list (bool * list op)) (start : list act)
+                      (sm : st * mode) (e : nat) (t : N) (k : bool) (pre acts : list act) : st * mode :=
+  let sm' := catch_up b start sm t in
+  match snd sm' with
+  | Up => after_exec b g ts t (ev_acts k acts) (run_event b (fst sm') e t k pre acts)
+  | Down _ => sm'          (* inactive: the message is ignored *)
+  end.
+
+Fixpoint run_events (b : budgets) (g : N) (ts : list (bool * list op)) (start : list act)
+                    (sm : st * mode) (e : nat) (now : N) (evs : list mevent) : st * mode * N :=
+  match evs with
+  | [] => (sm, now)
+  | (d, k, pre, acts) :: r =>
+      run_events b g ts start (step_event b g ts start sm e (now + d) k pre acts) (S e) (now + d) r
+  end.
+
+(* a restart still pending after the last message happens before the simulation ends *)
+Definition last_restart (b : budgets) (start : list act) (sm : st * mode) (now : N) : st * N :=
+  match snd sm with
+  | Down (Some r) => (run_start b (fst sm) r (no_shutdown start), N.max now r)
+  | _ => (fst sm, now)
+  end.
 
 (* the tear-down (ModuleRef::at_sim_end): exec(at_sim_end) and block_on(yield_now()),
    both at the time of the last event *)
@@ -397,17 +468,18 @@ Definition run_end (b : budgets) (s : st) (now : N) : st :=
   let '(s2, q2, q3) := exec_event (b_local b) (b_rt b) (b_coop b) now [] s1' in
   close 5 (length p2 + length q2) (length p3 + length q3) (end_turn (b_rt b) q3 s2).
 
-Definition mk_task (loc : bool) (c : list op) : task :=
-  {| local := loc; code := Some c; stat := NotSpawned; inbox := 0; jh := JNone; wk := 0 |}.
-Definition init (g : N) (ts : list (bool * list op)) : st :=
-  {| tasks := map (fun x => mk_task (fst x) (snd x)) ts; lq := []; cq := []; inj := []; stick := 0; gqi := g; trace := [] |}.
+Definition boot (b : budgets) (g : N) (ts : list (bool * list op)) (start : list act) : st * mode :=
+  after_exec b g ts 0 start (run_start b (init g ts) 0 start).
 
 Definition run_model (b : budgets) (g : N) (ts : list (bool * list op)) (start : list act) (evs : list mevent) : list trec :=
-  let '(s, now) := run_events b (run_start b (init g ts) start) O 0 evs in rev (trace (run_end b s now)).
+  let '(sm, now) := run_events b g ts start (boot b g ts start) O 0 evs in
+  let '(s, now') := last_restart b start sm now in
+  rev (trace (run_end b s now')).
 
 (* ---- wire format ---- *)
 (* script: B_local B_rt C R G  nT (kind len op* )*  lp(start act* )  (delta kind lp(pre act* ) lp(act* ))*
-   op = 0 Log | 1 Recv | 2 t Send | 3 t Join | 4 Yield | 5 End;  act = 0 t Spawn | 1 t Send;
+   op = 0 Log | 1 Recv | 2 t Send | 3 t Join | 4 Yield | 5 End;
+   act = 0 t Spawn | 1 t Send | 2 _ shutdown | 3 d shutdown and restart in d;
    kind odd = the processing element consumes the message.
    R (REMOTE_FIRST_INTERVAL) is carried for the record and has no effect (see above);
    G = global_queue_interval. *)
@@ -428,6 +500,8 @@ Definition dec_act (nt : N) (l : list N) : option (act * list N) :=
   match l with
   | 0 :: t :: r => Some (Spawn (tid nt t), r)
   | 1 :: t :: r => Some (ASend (tid nt t), r)
+  | 2 :: _ :: r => Some (AShutdown None, r)
+  | 3 :: d :: r => Some (AShutdown (Some (N.max d 1)), r)   (* restart delays are >= 1 ns *)
   | _ => None
   end.
 
@@ -454,6 +528,7 @@ Definition dec_event (nt : N) (l : list N) : option (mevent * list N) :=
 Definition enc_rec (r : trec) : list N :=
   match r with
   | RStart now => [6; 0; now]
+  | RReset now => [7; 0; now]
   | REvent e now => [3; N.of_nat e; now]
   | RPoll i w now => [2; N.of_nat i; w; now]
   | ROp i now => [1; N.of_nat i; now]
